@@ -31,6 +31,10 @@ class Undecided(Exception):
     pass
 
 
+import threading  # noqa: E402
+VERUS_SLOTS = threading.BoundedSemaphore(int(os.environ.get('VERIF_JOBS', '16')))
+
+
 def arm_label(pat):
     """`Add(expr1, expr2)` -> Add ; `Token::Num(i)` -> Num ; `_` -> default ; `Some('0'..='9')` -> as is"""
     m = re.match(r'^(?:\w+::)*(\w+)\s*(?:\(|\{|$)', pat)
@@ -47,8 +51,41 @@ def _verus_once(unit, repo, out_rs, scratch, features, rlimit, multiple_errors, 
     t0 = time.time()
     cmd = ['verus', out_rs, '--output-json', '--time-expanded', '--error-format=json',
            '--rlimit', str(rlimit), '--multiple-errors', str(multiple_errors)] + list(extra)
-    p = subprocess.run(cmd, capture_output=True, text=True, cwd=scratch)
-    wall = time.time() - t0
+    # memoisation: the generated file (source text + contracts) and the options determine the verifier's
+    # answer; an identical query is not sent to the solver twice (several properties share a unit)
+    import hashlib
+    key = hashlib.sha256((open(out_rs, encoding='utf-8').read() + '\0' + ' '.join(cmd[2:]) + '\0' + verus_version()).encode()).hexdigest()
+    cdir = os.path.join(VERIF, 'build', 'cache')
+    cfile = os.path.join(cdir, key + '.json')
+    cached = None
+    if os.environ.get('VERIF_NO_CACHE') != '1' and os.path.exists(cfile):
+        try:
+            cached = json.load(open(cfile))
+        except Exception:
+            cached = None
+    if cached is None:
+        with VERUS_SLOTS:
+            p = subprocess.run(cmd, capture_output=True, text=True, cwd=scratch)
+        out_text, err_text = p.stdout, p.stderr
+        wall = time.time() - t0
+        if p.returncode in (0, 1) and out_text.strip().startswith('{'):
+            try:
+                os.makedirs(cdir, exist_ok=True)
+                tmp = cfile + '.tmp%d.%d' % (os.getpid(), threading.get_ident())
+                with open(tmp, 'w') as fh:
+                    json.dump(dict(stdout=out_text, stderr=err_text, wall=wall), fh)
+                os.replace(tmp, cfile)
+            except Exception:
+                pass
+        from_cache = False
+    else:
+        out_text, err_text, wall = cached['stdout'], cached['stderr'], cached['wall']
+        from_cache = True
+
+    class _P:
+        stdout = out_text
+        stderr = err_text
+    p = _P()
     try:
         res = json.loads(p.stdout)
     except Exception:
@@ -82,7 +119,19 @@ def _verus_once(unit, repo, out_rs, scratch, features, rlimit, multiple_errors, 
     if res is None and not compile_errors:
         compile_errors.append('verus produced no result: ' + p.stderr[-400:])
     return dict(meta=meta, res=res, verif=verif, undecided=undecided, compile_errors=compile_errors,
-                cmd=' '.join(cmd).replace(scratch, '<scratch>'), wall=wall)
+                cmd=' '.join(cmd).replace(scratch, '<scratch>'), wall=wall, from_cache=from_cache)
+
+
+_VV = []
+
+
+def verus_version():
+    if not _VV:
+        try:
+            _VV.append(subprocess.run(['verus', '--version'], capture_output=True, text=True).stdout.strip())
+        except Exception:
+            _VV.append('?')
+    return _VV[0]
 
 
 def _diag_line(d):
@@ -114,7 +163,7 @@ def _locate(fns, line):
     return None, None
 
 
-def run_unit(unit, repo, scratch, features=None, rlimit=30, multiple_errors=4, tag=None, verus_args=(), split_workers=14):
+def run_unit(unit, repo, scratch, features=None, rlimit=30, multiple_errors=4, tag=None, verus_args=(), split_workers=16):
     """-> dict(unit, obligations=[...], failures=[...], meta, times)"""
     name = unit if not tag else unit + '@' + tag
     base = os.path.join(scratch, name.replace('@', '_').replace(',', '_'))
@@ -141,6 +190,8 @@ def run_unit(unit, repo, scratch, features=None, rlimit=30, multiple_errors=4, t
     fns = meta['functions']
     total_wall = w['wall']
     cmds = [w['cmd']]
+    cache_hits = 1 if w.get('from_cache') else 0
+    queries = 1
 
     # canaries: proof fns named canary_* in the postlude must FAIL (anti-vacuity, DESIGN section 9)
     gen = open(out_rs, encoding='utf-8').read()
@@ -214,6 +265,8 @@ def run_unit(unit, repo, scratch, features=None, rlimit=30, multiple_errors=4, t
             for fname, k, arm, o, fut in jobs:
                 sw = fut.result()
                 split_runs += 1
+                queries += 1
+                cache_hits += 1 if sw.get('from_cache') else 0
                 total_wall += 0  # parallel; wall accounted by the caller
                 if sw['compile_errors']:
                     undecided.append('split run %s/%s rejected by the verus front end: %s'
@@ -266,7 +319,7 @@ def run_unit(unit, repo, scratch, features=None, rlimit=30, multiple_errors=4, t
                 smt_total_s=res['times-ms'].get('smt', {}).get('total', 0) / 1000.0,
                 cmd='; '.join(cmds), file=out_rs, undecided=undecided, split_runs=split_runs,
                 verus_version=res.get('verus', {}).get('version'), canary_problems_pre=canary_problems,
-                canaries=len(canaries))
+                canaries=len(canaries), queries=queries, cache_hits=cache_hits)
 
 
 def _loc_text(d):
